@@ -148,6 +148,19 @@ def matmulDia (L Rm : Dia R) (scale : R) : Dia R :=
   { rows := L.rows, cols := Rm.cols, diags := offs.map fun o => (o, diaOutValue L Rm scale o) }
 end diaMatmul
 
+/-! ### `transpose_dia`, `adjoint_dia` -/
+section diaTranspose
+variable {R : Type} [OfNat R 0]
+
+/-- `transpose_dia` / `adjoint_dia` (with `f` the identity or complex conjugation): offsets are negated, the order of
+the stored diagonals is reversed, and column `j` of the new diagonal reads column `j + offset` of the old one when
+that column exists -/
+def mapTransposeDia (f : R → R) (m : Dia R) : Dia R :=
+  { rows := m.cols, cols := m.rows,
+    diags := m.diags.reverse.map fun d => (-d.1, fun (j : Nat) =>
+      if (j : Int) < -d.1 ∨ (j : Int) + d.1 ≥ (m.cols : Int) then 0 else f (d.2 ((j : Int) + d.1).toNat)) }
+end diaTranspose
+
 /-! ### the dispatcher: a specialisation built from a registered one and conversions -/
 
 /-- converters between formats preserve the matrix; `Repr f` is the carrier of format `f` -/
